@@ -304,29 +304,29 @@ theorem scanArgs_region (ts : List PTok) : ∀ (cur : List PTok) (acc : List (Li
       exact push d h (fun more => by simp [scanArgs, htk])
 
 
-theorem trimStart_prefix_blank (l : List PTok) :
-    ∃ pre, l = pre ++ trimStart l ∧ ∀ t ∈ pre, t.tok.isBlank = true := by
+theorem trimStartAll_prefix_ws (l : List PTok) :
+    ∃ pre, l = pre ++ trimStartAll l ∧ ∀ t ∈ pre, t.tok.isWhitespace = true := by
   induction l with
   | nil => exact ⟨[], rfl, fun t ht => (by cases ht)⟩
   | cons x r ih =>
-    by_cases hx : x.tok.isBlank = true
+    by_cases hx : x.tok.isWhitespace = true
     · obtain ⟨pre, hp, hb⟩ := ih
       refine ⟨x :: pre, ?_, ?_⟩
-      · have : trimStart (x :: r) = trimStart r := by simp [trimStart, hx]
+      · have : trimStartAll (x :: r) = trimStartAll r := by simp [trimStartAll, hx]
         rw [this, List.cons_append, ← hp]
       · intro t ht
         rcases List.mem_cons.mp ht with rfl | ht
         · exact hx
         · exact hb t ht
     · refine ⟨[], ?_, fun t ht => (by cases ht)⟩
-      simp [trimStart, hx]
+      simp [trimStartAll, hx]
 
 /-- the part of the text an invocation consumes behind the macro name -/
 theorem readArgs_region (m : Macro) (rest rest' : List PTok) (args : List (List PTok))
     (h : readArgs m rest = .ok (rest', args)) (hnc : ∀ a ∈ args, NoConcat a) :
     ∃ mid, rest = mid ++ rest' ∧ NoConcat mid ∧
       (m.isFunction = true → ∃ blanks bl init br, mid = blanks ++ ⟨.lparen, bl⟩ :: (init ++ [⟨.rparen, br⟩]) ∧
-        (∀ t ∈ blanks, t.tok.isBlank = true) ∧ scanArgs (init ++ [⟨.rparen, br⟩]) [] [] 0 = .ok ([], args)) ∧
+        (∀ t ∈ blanks, t.tok.isWhitespace = true) ∧ scanArgs (init ++ [⟨.rparen, br⟩]) [] [] 0 = .ok ([], args)) ∧
       (m.isFunction = false → mid = []) := by
   cases hf : m.isFunction with
   | false =>
@@ -336,7 +336,7 @@ theorem readArgs_region (m : Macro) (rest rest' : List PTok) (args : List (List 
   | true =>
     obtain ⟨b, tail, htrim, hscan, _⟩ := readArgs_fn m rest rest' args hf h
     obtain ⟨init, br, h1, h2, h3⟩ := scanArgs_region tail [] [] 0 rest' args hscan
-    obtain ⟨pre, hpre, hblank⟩ := trimStart_prefix_blank rest
+    obtain ⟨pre, hpre, hblank⟩ := trimStartAll_prefix_ws rest
     refine ⟨pre ++ ⟨.lparen, b⟩ :: (init ++ [⟨.rparen, br⟩]), ?_, ?_, ?_, fun hh => (by cases hh)⟩
     · rw [hpre, htrim, h1]; simp
     · intro t ht hc
@@ -1181,7 +1181,7 @@ theorem tameP_spec {env : List Entry} {l out : List PTok} (h : TameP env l out) 
         rw [← hs.1]; exact tameP_firstTok hrest
       | true =>
         obtain ⟨bb, tail, htrim, _, _⟩ := readArgs_fn e.m rest rest' args hfn hra
-        have := startsParen_of_trimStart rest bb tail htrim
+        have := startsParen_of_trimStartAll rest bb tail htrim
         unfold startsParen at this
         intro hh
         rw [hh] at this
@@ -1270,7 +1270,7 @@ theorem tameP_spec {env : List Entry} {l out : List PTok} (h : TameP env l out) 
         have hppmid : ppTokens ((blanks ++ ⟨.lparen, bl⟩ :: init) ++ [⟨.rparen, br⟩]) =
             Tok.lparen :: ppTokens (init ++ [⟨.rparen, br⟩]) := by
           rw [List.append_assoc, ppTokens_append,
-            ppTokens_ws blanks (fun t ht => blank_isWhitespace _ (hblank t ht)), List.nil_append, List.cons_append,
+            ppTokens_ws blanks (fun t ht => hblank t ht), List.nil_append, List.cons_append,
             ppTokens_cons _ _ (by rfl)]
         rw [hppmid] at hks''
         obtain ⟨lmid, lrest, hls', hlmid, hlrest⟩ := List.map_eq_append_iff.mp hks''
